@@ -18,6 +18,7 @@ import (
 	"encoding/hex"
 	"fmt"
 	"math/rand"
+	"sort"
 	"strconv"
 	"strings"
 
@@ -115,6 +116,9 @@ type wtype struct {
 	capN                    int     // generator cap on counts where the declared limit is huge
 }
 
+// append-style encoder checks per type: how many were made, how many disagreed with MarshalSSZ
+var appendChecks, appendDiffs = map[string]int{}, map[string]int{}
+
 type sszObj interface {
 	MarshalSSZ() ([]byte, error)
 	UnmarshalSSZ([]byte) error
@@ -129,7 +133,20 @@ func mk[T any, PT interface {
 		enc: func(v []fval) ([]byte, error) {
 			p := PT(new(T))
 			build(p, v)
-			return p.MarshalSSZ()
+			b, err := p.MarshalSSZ()
+			// the append-style encoder of the same object, writing behind bytes that are already in the buffer (a message code, a
+			// header): what it appends is the encoding, and what was there stays
+			if ap, ok := any(p).(interface {
+				MarshalSSZTo([]byte) ([]byte, error)
+			}); ok && err == nil {
+				prefix := []byte{0xa1, 0xb2, 0xc3}
+				b2, err2 := ap.MarshalSSZTo(append(make([]byte, 0, 16), prefix...))
+				appendChecks[name]++
+				if err2 != nil || len(b2) < 3 || !bytes.Equal(b2[:3], prefix) || !bytes.Equal(b2[3:], b) {
+					appendDiffs[name]++
+				}
+			}
+			return b, err
 		},
 		dec: func(b []byte) ([]fval, error) {
 			p := PT(new(T))
@@ -1244,6 +1261,14 @@ func runC14(o *Out, r *rand.Rand, thorough bool, _ []string) {
 	}
 	types := c14Types()
 	defer func() {
+		var names []string
+		for n := range appendChecks {
+			names = append(names, n)
+		}
+		sort.Strings(names)
+		for _, n := range names {
+			o.Case(fmt.Sprintf("appendenc %s n=%d", n, appendChecks[n]), fmt.Sprintf("diffs=%d", appendDiffs[n]))
+		}
 		for _, t := range types {
 			if t.nRetain > 0 {
 				o.Case(fmt.Sprintf("retain %s n=%d", t.name, t.nRetain), fmt.Sprintf("changed=%d", t.nChanged))
